@@ -12,7 +12,8 @@ hh_common.py mode "c18"):
   every event: no estimate is lowered; a key at its ceiling stays there.
 E3 constructor grid: for every (max_count, num_reserved) of the grid the
 constructor raises ValueError or the maximum counter decodes to max_count
-(relative 1e-6, the repository's own pytest.approx tolerance).
+(relative 1e-6, the repository's own pytest.approx tolerance); log16 and log8
+are also constructed with the same explicit pair in one process, in both orders.
 """
 import shutil
 
@@ -141,6 +142,22 @@ def constructor_grid(rep):
                 f"{kind}(max_count={mc}, num_reserved={nr}) is accepted but its maximum counter "
                 f"decodes to {v!r}",
             )
+    # both counter widths constructed with the SAME explicit (max_count, num_reserved) in one
+    # process, in both orders: each must get its own base
+    inter = 0
+    for mc, nr in ((300000, 3), (200000, 7), (2**32 - 1, 50), (10**6, 100), (2**40, 0), (65536 * 4, 200)):
+        for order in (("log16", "log8"), ("log8", "log16")):
+            for kind in order:
+                v = decode_top(kind, mc, nr)
+                inter += 1
+                if v is not None and not abs(v - mc) <= 1e-6 * mc:
+                    rep.violation(
+                        {"what": "ctor-order", "order": list(order), "kind_": kind, "max_count": mc,
+                         "num_reserved": nr},
+                        f"{kind}(max_count={mc}, num_reserved={nr}) constructed in the order {order} "
+                        f"in one process: its maximum counter decodes to {v!r}",
+                    )
+    tot += inter
     rep.evals(tot)
     rep.add("transitions", tot)
     rep.add("traces_validated_against_impl", tot)
@@ -174,6 +191,15 @@ def run(rep):
 
 
 def replay(case):
+    if case.get("what") == "ctor-order":
+        bad = False
+        seen = {}
+        for kind in case["order"]:
+            v = decode_top(kind, case["max_count"], case["num_reserved"])
+            seen[kind] = v
+            if v is not None and not abs(v - case["max_count"]) <= 1e-6 * case["max_count"]:
+                bad = True
+        return bad, {"decoded_ceilings": seen}
     if case.get("what") == "ctor":
         v = decode_top(case["kind_"], case["max_count"], case["num_reserved"])
         bad = v is not None and not abs(v - case["max_count"]) <= 1e-6 * case["max_count"]
